@@ -140,6 +140,99 @@ proof fn friv_meaning(r: Seq<usize>, ps: Seq<usize>, t: int)
     reveal(covers); reveal(sound);
 }
 
+// ---------------------------------------------------------------------------------------------------------------------
+// fri/src/utils.rs map_positions_to_indexes: where a folded position sits in the layer's commitment tree when the layer was
+// committed in `num_partitions` interleaved partitions. For EVERY list of positions: element i of the result is
+// (p mod P) * (T / P) + (p div P) for p = positions[i], T = source_domain_size / folding_factor (the identity for P == 1), and for
+// P dividing T the map is injective on [0, T) and stays below T (lemma_index_injective) - distinct leaves for distinct positions.
+pub open spec fn leaf_index(p: int, np: int, psize: int) -> int { (p % np) * psize + (p - p % np) / np }
+
+#[verifier::external_body]
+pub fn slice_to_vec(s: &[usize]) -> (r: Vec<usize>) ensures r@ == s@ { s.to_vec() }
+
+//@@ source fri/src/utils.rs
+//@@ extract anchor="pub fn map_positions_to_indexes("
+//@@ rewrite "positions.to_vec()" => "slice_to_vec(positions)"
+//@@ rewrite "let mut result = Vec::new();" => "let mut result: Vec<usize> = Vec::new();"
+//@@ itername 1 it
+//@@ loop 1
+//@@|        invariant
+//@@|            num_partitions >= 2, folding_factor >= 2, partition_size == (source_domain_size / folding_factor) / num_partitions,
+//@@|            partition_size * num_partitions <= source_domain_size / folding_factor,
+//@@|            forall|i: int| 0 <= i < positions.len() ==> #[trigger] positions@[i] < source_domain_size / folding_factor,
+//@@|            result.len() == it.index@,
+//@@|            forall|i: int| 0 <= i < it.index@ ==> #[trigger] result@[i] == leaf_index(positions@[i] as int, num_partitions as int, partition_size as int),
+//@@ loopstart 1
+//@@|        proof {
+//@@|            lemma_leaf_range(*position as int, num_partitions as int, partition_size as int);
+//@@|            assert((*position % num_partitions) * partition_size <= partition_size * num_partitions) by (nonlinear_arith)
+//@@|                requires 0 <= (*position % num_partitions) < num_partitions, partition_size >= 0;
+//@@|            assert(source_domain_size / folding_factor <= usize::MAX / 2) by (nonlinear_arith)
+//@@|                requires folding_factor >= 2, source_domain_size <= usize::MAX;
+//@@|        }
+pub fn map_positions_to_indexes(
+    positions: &[usize],
+    source_domain_size: usize,
+    folding_factor: usize,
+    num_partitions: usize,
+) -> (r: Vec<usize>)
+    requires
+        folding_factor >= 2, num_partitions >= 1,
+        forall|i: int| 0 <= i < positions.len() ==> #[trigger] positions@[i] < source_domain_size / folding_factor,
+    ensures
+        r.len() == positions.len(),
+        num_partitions == 1 ==> r@ == positions@,
+        num_partitions >= 2 ==> forall|i: int| 0 <= i < positions.len() ==>
+            #[trigger] r@[i] == leaf_index(positions@[i] as int, num_partitions as int, ((source_domain_size / folding_factor) / num_partitions) as int),
+{
+    proof {
+        if num_partitions >= 2 {
+            let t = (source_domain_size / folding_factor) as int;
+            vstd::arithmetic::div_mod::lemma_fundamental_div_mod(t, num_partitions as int);
+            assert((t / num_partitions as int) * num_partitions as int <= t) by (nonlinear_arith)
+                requires t == num_partitions as int * (t / num_partitions as int) + t % (num_partitions as int), t % (num_partitions as int) >= 0;
+        }
+    }
+    /*@@body*/
+}
+
+// the leaf index of a position below np * psize stays below np * psize (no overflow in the computation either)
+proof fn lemma_leaf_range(p: int, np: int, psize: int)
+    requires np >= 1, psize >= 0, 0 <= p
+    ensures
+        0 <= p % np < np, (p - p % np) >= 0, (p - p % np) / np == p / np,
+        p < np * psize ==> 0 <= leaf_index(p, np, psize) < np * psize,
+        (p % np) * psize >= 0,
+{
+    vstd::arithmetic::div_mod::lemma_fundamental_div_mod(p, np);
+    let q = p / np; let r = p % np;
+    assert(p - r == np * q);
+    vstd::arithmetic::div_mod::lemma_div_multiples_vanish(q, np);
+    assert((np * q) / np == q) by { vstd::arithmetic::mul::lemma_mul_is_commutative(np, q); }
+    assert(r * psize >= 0) by (nonlinear_arith) requires r >= 0, psize >= 0;
+    if p < np * psize {
+        assert(q < psize) by (nonlinear_arith) requires np * q <= p, p < np * psize, np >= 1;
+        assert(r * psize + q < np * psize) by (nonlinear_arith) requires 0 <= r < np, 0 <= q < psize;
+    }
+}
+
+// distinct positions below T = np * psize are stored in distinct leaves
+proof fn lemma_index_injective(p1: int, p2: int, np: int, psize: int)
+    requires np >= 1, psize >= 1, 0 <= p1 < np * psize, 0 <= p2 < np * psize, leaf_index(p1, np, psize) == leaf_index(p2, np, psize)
+    ensures p1 == p2
+{
+    lemma_leaf_range(p1, np, psize);
+    lemma_leaf_range(p2, np, psize);
+    let (q1, r1, q2, r2) = (p1 / np, p1 % np, p2 / np, p2 % np);
+    vstd::arithmetic::div_mod::lemma_fundamental_div_mod(p1, np);
+    vstd::arithmetic::div_mod::lemma_fundamental_div_mod(p2, np);
+    assert(q1 < psize) by (nonlinear_arith) requires np * q1 <= p1, p1 < np * psize, np >= 1;
+    assert(q2 < psize) by (nonlinear_arith) requires np * q2 <= p2, p2 < np * psize, np >= 1;
+    // r1 * psize + q1 == r2 * psize + q2 with 0 <= q1, q2 < psize  ==>  r1 == r2 and q1 == q2
+    assert(r1 == r2 && q1 == q2) by (nonlinear_arith)
+        requires r1 * psize + q1 == r2 * psize + q2, 0 <= q1 < psize, 0 <= q2 < psize, r1 >= 0, r2 >= 0;
+}
+
 proof fn friv_canary_must_fail(r: Seq<usize>, ps: Seq<usize>, t: int)
     requires fold_inv(r, ps, ps.len() as int, t)
     ensures r.len() == ps.len()
